@@ -628,3 +628,284 @@ def ref_models(spec_ast, order, limit=20000):
         if ok:
             out.append(M)
     return out
+
+
+# ---------------------------------------------------------------------------
+# C02: aggregate constraints
+# ---------------------------------------------------------------------------
+AGG_WORDS = {'count': 'number', 'sum': 'total', 'max': 'highest', 'min': 'lowest'}
+# what each aggregate word MEANS (hand-written, like Props/C02.lean aggPhraseMeaning); the words themselves come from the live grammar
+AGG_MEANING = {'the number': 'count', 'the total': 'sum', 'the highest': 'max', 'the biggest': 'max', 'the lowest': 'min', 'the smallest': 'min'}
+_AGG_PHRASES = None
+
+
+def agg_word(rng, fn):
+    """a word of the live AGGREGATE_OPERATOR terminal that means `fn` (without the leading 'the ')"""
+    global _AGG_PHRASES
+    if _AGG_PHRASES is None:
+        import json, os
+        path = os.path.join(os.path.dirname(__file__), '..', 'lean', 'Cnl2aspModel', 'Generated', 'tables.json')
+        try:
+            live = list(json.load(open(path))['aggregate'].keys())
+        except Exception:
+            live = list(AGG_MEANING)
+        _AGG_PHRASES = [p for p in live if p in AGG_MEANING]
+    cands = [p for p in _AGG_PHRASES if AGG_MEANING[p] == fn] or ['the ' + AGG_WORDS[fn]]
+    return rng.choice(cands)[4:]
+
+
+INVENTED_LOOKALIKES = ['D', 'D1', 'D2', 'CNT', 'CNT1', 'X']
+NEG_OP = {'eq': 'ne', 'ne': 'eq', 'lt': 'ge', 'ge': 'lt', 'gt': 'le', 'le': 'gt'}
+
+
+def atom_j(pred, args):
+    return {'p': pred, 'args': args}
+
+
+def agg_part(rng, sp, ctx, allow_global=True):
+    """one aggregate: returns (text, fn, tuple, cond, whenever texts, whenever clause ASTs, size hint) or None"""
+    forms = []
+    bin_verbs = [v for v in sp.verbs if v.obj]
+    un_verbs = [v for v in sp.verbs if not v.obj]
+    attr_concepts = [c for c in sp.concepts if c.attr]
+    if bin_verbs:
+        forms += ['active', 'active', 'passive', 'active-any']
+    if un_verbs:
+        forms += ['unary', 'unary']
+    if attr_concepts:
+        forms += ['attr', 'attr']
+    forms += ['key']
+    form = rng.choice(forms)
+    d = ctx.fresh()
+    if form in ('active', 'active-any'):
+        v = rng.choice(bin_verbs)
+        if form == 'active' and allow_global:
+            y = ctx.label(v.obj.name)
+            oterm = ctx.var(y)
+            otxt = f'{v.obj.name} {y}'
+            wh = [f'whenever there is {art(v.obj.name)} {v.obj.name} {y}']
+            wast = [{'k': 'ent', 'neg': False, 'e': ent(v.obj, ctx.var(y), ctx=ctx)}]
+        else:
+            oterm = ctx.fresh()
+            otxt = f'{art(v.obj.name)} {v.obj.name}'
+            wh, wast = [], []
+        oargs = [oterm] + ([ctx.fresh()] if v.obj.attr else [])
+        cond = [{'k': 'pos', 'a': atom_j(v.pred, [d, oterm])}, {'k': 'pos', 'a': atom_j(v.obj.name, oargs)}]
+        lab = ''
+        txt = f'the number of {v.subj.name}{lab} that are {v.words} {otxt}'
+        return txt, 'count', [d], cond, wh, wast, len(v.subj.tuples), form
+    if form == 'passive':
+        v = rng.choice(bin_verbs)
+        x = ctx.label(v.subj.name)
+        wh = [f'whenever there is {art(v.subj.name)} {v.subj.name} {x}']
+        wast = [{'k': 'ent', 'neg': False, 'e': ent(v.subj, ctx.var(x), ctx=ctx)}]
+        cond = [{'k': 'pos', 'a': atom_j(v.pred, [ctx.var(x), d])}]
+        idw = ' id' if rng.random() < 0.4 else ''
+        txt = f'the number of {v.obj.name}{idw} where {art(v.subj.name)} {v.subj.name} {x} is {v.words}'
+        return txt, 'count', [d], cond, wh, wast, len(v.obj.tuples), form
+    if form == 'unary':
+        v = rng.choice(un_verbs)
+        cond = [{'k': 'pos', 'a': atom_j(v.pred, [d])}]
+        txt = f'the number of {v.subj.name} that are {v.words}'
+        return txt, 'count', [d], cond, [], [], len(v.subj.tuples), form
+    if form == 'attr':
+        c = rng.choice(attr_concepts)
+        fn = rng.choice(['sum', 'max', 'min'])
+        word = agg_word(rng, fn)
+        hosts = [h for h in sp.concepts if h is not c and h.kind == 'num' and not h.attr]
+        if hosts and allow_global and rng.random() < 0.5:
+            h = rng.choice(hosts)
+            x = ctx.label(h.name)
+            cond = [{'k': 'pos', 'a': atom_j(c.name, [ctx.var(x), d])}]
+            txt = f'the {word} {c.attr} of {art(c.name)} {c.name} with id {x}'
+            return (txt, fn, [d], cond, [f'whenever there is {art(h.name)} {h.name} {x}'],
+                    [{'k': 'ent', 'neg': False, 'e': ent(h, ctx.var(x), ctx=ctx)}], 6, 'attr-host')
+        cond = [{'k': 'pos', 'a': atom_j(c.name, [ctx.fresh(), d])}]
+        txt = f'the {word} {c.attr} of {art(c.name)} {c.name}'
+        return txt, fn, [d], cond, [], [], 6, form
+    # key
+    nums = [c for c in sp.concepts if c.kind == 'num']
+    if not nums:
+        return None
+    c = rng.choice(nums)
+    fn = rng.choice(['max', 'min', 'sum'])
+    cond = [{'k': 'pos', 'a': atom_j(c.name, [d] + ([ctx.fresh()] if c.attr else []))}]
+    txt = f'the {agg_word(rng, fn)} id of {art(c.name)} {c.name}'
+    return txt, fn, [d], cond, [], [], 6, form
+
+
+def agg_sentence(rng, sp):
+    ctx = Ctx(rng, sp.pref)
+    lookalike = rng.random() < 0.3
+    if lookalike:
+        # the author's labels are spelled like the names the compiler invents for counted terms and results
+        ctx.pool = list(INVENTED_LOOKALIKES)
+        rng.shuffle(ctx.pool)
+        ctx.pref = {}
+    pol = rng.choice(['prohibited', 'required'])
+    part = agg_part(rng, sp, ctx)
+    if part is None:
+        return None
+    txt, fn, tup, cond, wh, wast, size, form1 = part
+    if rng.random() < (0.7 if lookalike else 0.25) and ctx.pool:
+        # one more whenever clause (possibly over the same concept), and a comparison between two labels
+        c = rng.choice(sp.concepts)
+        z = ctx.label(None if lookalike else c.name)
+        wh = wh + [f'whenever there is {art(c.name)} {c.name} {z}']
+        wast = wast + [{'k': 'ent', 'neg': False, 'e': ent(c, ctx.var(z), ctx=ctx)}]
+        others = [(l, i) for l, i in ctx.labels.items() if l != z]
+        same = [(l, i) for l, i in others if any(w['k'] == 'ent' and w['e']['c'] == c.name and w['e']['a'][0] == {'v': i} for w in wast)]
+        if same and rng.random() < 0.7:
+            l, i = rng.choice(same)
+            ph, op = rng.choice(CMP)
+            wh = wh + [f'where {l} is {ph} {z}']
+            wast = wast + [{'k': 'cmp', 'op': op, 'l': {'v': i}, 'r': ctx.var(z)}]
+    r = rng.random()
+    if r < 0.22 and fn == 'count':
+        # aggregate against aggregate
+        p2 = agg_part(rng, sp, ctx, allow_global=rng.random() < 0.5)
+        if p2 is None or p2[1] != 'count':
+            return None
+        ph, op = rng.choice(CMP)
+        r1, r2 = ctx.fresh(), ctx.fresh()
+        a1 = {'fn': fn, 'tuple': tup, 'cond': cond, 'op': 'eq', 'bound': r1}
+        a2 = {'fn': p2[1], 'tuple': p2[2], 'cond': p2[3], 'op': 'eq', 'bound': r2}
+        # the subject of a passive aggregate is in the body whether or not a whenever clause repeats it
+        wh2 = p2[4] if rng.random() < 0.5 else []
+        if wh2 or p2[7] == 'passive':
+            wast = wast + p2[5]
+        t = f'It is {pol} that {txt} is {ph} {p2[0]}' + ''.join(', ' + w for w in wh + wh2) + '.'
+        cmp = {'k': 'cmp', 'op': op, 'l': r1, 'r': r2}
+        if pol == 'prohibited':
+            ast = {'k': 'aggProhibited', 'aggs': [a1, a2], 'cmps': [cmp], 'conds': wast}
+        else:
+            ast = {'k': 'aggRequired2', 'aggs': [a1, a2], 'cmp': cmp, 'conds': wast}
+        return Sentence(t, ast, 'agg-vs-agg')
+    if r < 0.36:
+        lo = rng.randrange(0, size + 1)
+        hi = rng.randrange(lo, size + 2)
+        t = f'It is {pol} that {txt} is between {lo} and {hi}' + ''.join(', ' + w for w in wh) + '.'
+        a1 = {'fn': fn, 'tuple': tup, 'cond': cond, 'op': 'ge', 'bound': val(lo)}
+        a2 = {'fn': fn, 'tuple': tup, 'cond': cond, 'op': 'le', 'bound': val(hi)}
+        if pol == 'prohibited':
+            return Sentence(t, {'k': 'aggProhibited', 'aggs': [a1, a2], 'cmps': [], 'conds': wast}, 'agg-between')
+        # required … between: the direct reading is a conjunction; cnl2asp prints `lo > agg > hi` (finding F1)
+        s = Sentence(t, {'k': 'aggRequiredBetween', 'agg': {'fn': fn, 'tuple': tup, 'cond': cond}, 'lo': lo, 'hi': hi, 'conds': wast},
+                     'agg-between-required')
+        return s
+    ph, op = rng.choice(CMP)
+    n = rng.randrange(0, size + 2)
+    t = f'It is {pol} that {txt} is {ph} {n}' + ''.join(', ' + w for w in wh) + '.'
+    a = {'fn': fn, 'tuple': tup, 'cond': cond, 'op': op, 'bound': val(n)}
+    if pol == 'prohibited':
+        return Sentence(t, {'k': 'aggProhibited', 'aggs': [a], 'cmps': [], 'conds': wast}, 'agg')
+    return Sentence(t, {'k': 'aggRequired', 'agg': a, 'conds': wast}, 'agg')
+
+
+def lit_vars_j(l):
+    out = []
+    ts = l['a']['args'] if l['k'] in ('pos', 'neg') else [l['l'], l['r']]
+    for t in ts:
+        if 'v' in t:
+            out.append(t['v'])
+    return out
+
+
+def lit_holds_j(l, env, M):
+    if l['k'] == 'cmp':
+        return cmp_eval(l['op'], term_val(l['l'], env), term_val(l['r'], env))
+    at = (l['a']['p'],) + tuple(term_val(t, env) for t in l['a']['args'])
+    return (at in M) != (l['k'] == 'neg')
+
+
+def agg_value(a, env, M, universe):
+    """(function, value) of the aggregate under the outer assignment `env` (variables not in env are local)"""
+    local = sorted({v for l in a['cond'] for v in lit_vars_j(l)} | {t['v'] for t in a['tuple'] if 'v' in t})
+    local = [v for v in local if v not in env]
+    tuples = set()
+    for loc in envs(local, universe):
+        e2 = dict(env)
+        e2.update(loc)
+        if all(lit_holds_j(l, e2, M) for l in a['cond']):
+            tuples.add(tuple(term_val(t, e2) for t in a['tuple']))
+    ws = [t[0] if isinstance(t[0], int) else 0 for t in tuples]
+    fn = a['fn']
+    if fn == 'count':
+        return len(tuples)
+    if fn == 'sum':
+        return sum(ws)
+    if not ws:
+        return None
+    return max(ws) if fn == 'max' else min(ws)
+
+
+def agg_cmp(fn, op, v, b):
+    if v is None:
+        if fn == 'min':
+            return op in ('gt', 'ge', 'ne')
+        return op in ('lt', 'le', 'ne')
+    return cmp_eval(op, v, b)
+
+
+def agg_holds(a, env, M, universe):
+    """truth of `agg op bound`; an unbound variable bound with op '=' is assigned (returns extended env or None)"""
+    v = agg_value(a, env, M, universe)
+    b = a['bound']
+    if 'v' in b and b['v'] not in env:
+        if a['op'] != 'eq' or v is None:
+            raise ValueError('unbound aggregate bound')
+        e2 = dict(env)
+        e2[b['v']] = v
+        return e2
+    bv = term_val(b, env)
+    if not isinstance(bv, int):
+        return None
+    return env if agg_cmp(a['fn'], a['op'], v, bv) else None
+
+
+def agg_sentence_ok(s, M, universe):
+    """the direct reading of an aggregate sentence on M"""
+    outer = sorted({v for c in s['conds'] for v in clause_vars(c)})
+    for env in envs(outer, universe):
+        if not all(clause_holds(c, env, M) for c in s['conds']):
+            continue
+        if s['k'] == 'aggProhibited':
+            e = env
+            for a in s['aggs']:
+                e = agg_holds(a, e, M, universe)
+                if e is None:
+                    break
+            if e is not None and all(lit_holds_j(l, e, M) for l in s['cmps']):
+                return False
+        elif s['k'] == 'aggRequired':
+            if agg_holds(s['agg'], env, M, universe) is None:
+                return False
+        elif s['k'] == 'aggRequired2':
+            e = env
+            for a in s['aggs']:
+                e = agg_holds(a, e, M, universe)
+                if e is None:
+                    break
+            if e is not None and not lit_holds_j(s['cmp'], e, M):
+                return False
+        elif s['k'] == 'aggRequiredBetween':
+            v = agg_value(dict(s['agg'], op='eq', bound=val(0)), env, M, universe)
+            a = s['agg']
+            if not (agg_cmp(a['fn'], 'ge', v, s['lo']) and agg_cmp(a['fn'], 'le', v, s['hi'])):
+                return False
+    return True
+
+
+def ref_models_agg(spec_ast, order, limit=20000):
+    base = [s for s in spec_ast if not s['k'].startswith('agg')]
+    aggs = [s for s in spec_ast if s['k'].startswith('agg')]
+    ms = ref_models(base, order, limit)
+    if ms is None:
+        return None
+    universe = set()
+    for s in spec_ast:
+        if s['k'] == 'facts':
+            for t in s['tuples']:
+                universe.update(t)
+    universe = sorted(universe, key=lambda v: (isinstance(v, str), v))
+    return [M for M in ms if all(agg_sentence_ok(s, M, universe) for s in aggs)]
